@@ -62,7 +62,9 @@ type Client struct {
 	rxBytes  int64
 	policy   AckPolicy
 	paused   bool // reader paused (stops reading: simulates a client that stopped reading)
-	pauseC   *sync.Cond
+	// OnRead is called after every Read (set it with SetOnRead).
+	OnRead func(n int)
+	pauseC *sync.Cond
 
 	wmu    sync.Mutex
 	wcond  *sync.Cond
@@ -87,6 +89,13 @@ func New(name string, conn net.Conn, policy AckPolicy) *Client {
 	go c.reader()
 	go c.writer()
 	return c
+}
+
+// SetOnRead installs a function called after every Read (slow or bursty readers).
+func (c *Client) SetOnRead(f func(n int)) {
+	c.mu.Lock()
+	c.OnRead = f
+	c.mu.Unlock()
 }
 
 // SetPolicy changes the acknowledgement policy.
@@ -123,6 +132,14 @@ func (c *Client) reader() {
 		}
 		c.mu.Unlock()
 		n, err := c.conn.Read(tmp)
+		if n > 0 {
+			c.mu.Lock()
+			or := c.OnRead
+			c.mu.Unlock()
+			if or != nil {
+				or(n)
+			}
+		}
 		if n > 0 {
 			buf = append(buf, tmp[:n]...)
 			atomic.AddInt64(&c.rxBytes, int64(n))
